@@ -764,15 +764,18 @@ class Link(SimComponent):
             receiver = self.endpoint_b
         frame_size = frame.size_Mbits
 
+        # Load the frame size on the link before it is delivered, so that frames sent while this one is being
+        # received (e.g. a reply) are admitted against a load that already includes it
+        self.current_load += frame_size
         if receiver.receive_frame(frame):
             # Frame transmitted successfully
-            # Load the frame size on the link
-            self.current_load += frame_size
             _LOGGER.debug(
                 f"Added {frame_size:.3f} Mbits to {self}, current load {self.current_load:.3f} Mbits "
                 f"({self.current_load_percent})"
             )
             return True
+        # Frame was not accepted by the receiver, so it does not count towards the load
+        self.current_load -= frame_size
         return False
 
     def __str__(self) -> str:
